@@ -9,6 +9,7 @@ CONSTANTS
   Typed = FALSE
   Ops = {"ConstructEmpty", "ConstructH", "MoveConstruct", "AddHandle", "AddFill", "MergeShl", "MoveAssign", "Pop", "Clear", "Destroy", "CoAwait", "Pause"}
   Fixed = TRUE
+  Ctxs = {"flow"}
   Targets = {}
 INVARIANTS TypeOK RepOK NoDoubleResume Conservation NoLeak
 PROPERTIES InlineNoAlloc MovedFromIsEmpty EmptyResumesNothing ValuePreserved ReadsAgree ResumeOrder QueueFIFO
